@@ -24,6 +24,16 @@ def refs_cat(*parts):
     return refs.cat(*parts)
 
 
+def _cat(parts):
+    """concatenation of byte strings, some of which may have symbolic length"""
+    if any(isinstance(x, V.SymBlob) for x in parts):
+        out = V.SymBlob([])
+        for x in parts:
+            out = out + V.SymBlob.of(x.tobytes() if isinstance(x, V.SymBlob) else x)
+        return out
+    return refs_cat(*parts) if parts else b""
+
+
 def _sb(x):
     return x if isinstance(x, (bool, V.SymBool)) else bool(x)
 
@@ -34,6 +44,8 @@ def seq_eq(a, b):
         return bytes(a) == bytes(b)
     if not V.is_byteslike(a) or not V.is_byteslike(b):
         return a is b
+    if isinstance(a, V.SymBlob) or isinstance(b, V.SymBlob):
+        return V.SymBlob.of(a) == V.SymBlob.of(b)  # symbolic lengths: decided segment-wise
     if not isinstance(a, V.SymSeq):
         a = V.SymBytes(list(bytes(a)))
     return a == b
@@ -63,6 +75,8 @@ def _identical(a, b):
     if isinstance(a, (bytes, bytearray)) and isinstance(b, (bytes, bytearray)):
         return bytes(a) == bytes(b)
     if not V.is_byteslike(a) or not V.is_byteslike(b):
+        return False
+    if isinstance(a, V.SymBlob) or isinstance(b, V.SymBlob):
         return False
     x, y = V.seq_items(a), V.seq_items(b)
     if len(x) != len(y):
@@ -305,14 +319,19 @@ class World:
             def encrypt(self, nonce, data, associated_data):
                 if not 8 <= len(nonce) <= 128:
                     raise ValueError("Nonce must be between 8 and 128 bytes")
-                ct = world.fresh("ct", len(data) + 16)
+                n = V.blen(data)
+                if isinstance(n, int) and n <= 4096:
+                    ct = world.fresh("ct", n + 16)
+                else:  # long / symbolic-length messages: opaque content
+                    world.n += 1
+                    ct = world.c.blob_of_len(f"ct{world.n}", n + 16)
                 world.aead.append(((self.key, nonce, ct), data))
                 return ct
 
             def decrypt(self, nonce, data, associated_data):
                 if not 8 <= len(nonce) <= 128:
                     raise ValueError("Nonce must be between 8 and 128 bytes")
-                if len(data) < 16:
+                if truth(V.blen(data) < 16):
                     raise InvalidTag()
                 hit = lookup(world.aead, (self.key, nonce, data), world)
                 if hit is None:
@@ -349,25 +368,30 @@ class World:
 
             def _record(self):
                 # the sealed message (under this key and nonce) whose ciphertext starts with what has been fed so far
-                fed = refs_cat(*self.seen) if self.seen else b""
+                fed = _cat(self.seen)
                 for (k, nonce, ct), pt in world.aead:
-                    if truth(all_of([_sb(seq_eq(k, self.key)), _sb(seq_eq(nonce, self.mode.iv))])) and len(fed) <= len(ct) - 16 and truth(_sb(seq_eq(fed, ct[: len(fed)]))):
+                    if truth(all_of([_sb(seq_eq(k, self.key)), _sb(seq_eq(nonce, self.mode.iv))])) and truth(V.blen(fed) <= V.blen(ct) - 16) and truth(_sb(seq_eq(fed, ct[: V.blen(fed)]))):
                         return ct, pt
                 return None, None
 
             def update(self, data):
-                off = sum(len(x) for x in self.seen)
+                off = sum(V.blen(x) for x in self.seen)
                 self.seen.append(data)
                 ct, pt = self._record()
+                n = V.blen(data)
                 if ct is None:
-                    return world.fresh("garbage", len(data)) if len(data) else b""  # decrypting unauthentic data yields unrelated octets
-                return pt[off : off + len(data)]
+                    # decrypting unauthentic data yields unrelated octets
+                    if isinstance(n, int) and n <= 4096:
+                        return world.fresh("garbage", n) if n else b""
+                    world.n += 1
+                    return world.c.blob_of_len(f"garbage{world.n}", n)
+                return pt[off : off + n]
 
             def _finish(self, tag):
                 self.done = True
                 ct, pt = self._record()
-                fed = sum(len(x) for x in self.seen)
-                if ct is None or fed != len(ct) - 16 or tag is None or not truth(_sb(seq_eq(tag, ct[len(ct) - 16 :]))):
+                fed = sum(V.blen(x) for x in self.seen)
+                if ct is None or not truth(fed == V.blen(ct) - 16) or tag is None or not truth(_sb(seq_eq(tag, ct[V.blen(ct) - 16 :]))):
                     raise InvalidTag()
                 return b""
 
